@@ -613,7 +613,7 @@ def gen_c20_robust(rng, tier):
             ops.append('robust_import %s %s' % (suf, d.hex() or '-'))
             if tr is None or tr < 10 ** 6:          # the exporter sweeps the surface-id range: see gen_c20_sweep
                 ops.append('robust_translate %s %s' % (suf, d.hex() or '-'))
-        if par == 'clean':
+        if par in ('clean', 'orient'):
             ops.append('robust_part %s %s' % (suf, d.hex() or '-'))
     return ops
 
